@@ -62,12 +62,39 @@ func planOfEvents(evs []simfs.Event) string {
 
 // fmRun executes ops on a fresh disk. faultOp/faultKind/faultName/faultNth/landed: during op faultOp the nth
 // fault-eligible call of that kind on that file fails (faultOp < 0: no fault).
-func fmRun(segSize int, ops []string, faultOp int, faultKind, faultName string, faultNth, landed int, persistent bool) (res []fmOpResult, fired bool) {
+func fmRun(segSize int, ops []string, faultOp int, faultKind, faultName string, faultNth, landed int, persistent bool) (res []fmOpResult, fired bool, viols []Violation) {
+	// direct monitors on the real run (independent of the model): entries whose StoreLogs returned nil and that no
+	// DeleteRange (successful, or failed — a failed one may or may not take effect) has touched are readable and
+	// unaltered after every call and after every restart (C10, C01); a stable value whose Set returned nil reads back,
+	// one whose Set failed reads back as the old or the new value (C08)
+	acked := map[uint64]string{}
+	stableOK := map[uint64]bool{0: true} // admissible values of the stable key
+	var done []string
+	report := func(prop, what, detail string) {
+		for _, pr := range []string{"C10", prop} {
+			viols = append(viols, Violation{Property: pr, What: what, Detail: detail, Ops: append([]string{fmt.Sprintf("segment size %d", segSize), fmt.Sprintf("fault: %s of %s, occurrence %d of call %d, persistent=%v, landed=%d", faultKind, faultName, faultNth, faultOp, persistent, landed)}, done...)})
+		}
+	}
+	verify := func(w *wal.WAL, when string) {
+		for idx, want := range acked {
+			var l raft.Log
+			if err := w.GetLog(idx, &l); err != nil {
+				report("C01", "an acknowledged entry no DeleteRange covered cannot be read "+when, fmt.Sprintf("GetLog(%d): %v", idx, err))
+				return
+			} else if tokKey(logTok(&l)) != want {
+				report("C01", "an acknowledged entry reads back altered "+when, fmt.Sprintf("GetLog(%d)", idx))
+				return
+			}
+		}
+		if v, err := w.GetUint64(unhx(hx([]byte("CurrentTerm")))); err == nil && !stableOK[v] {
+			report("C08", "the stable store returns a value that is neither the last acknowledged one nor one a failed Set may have written "+when, fmt.Sprintf("GetUint64 = %d, admissible %v", v, stableOK))
+		}
+	}
 	d := simfs.New()
 	d.Record = true
 	w, err := openWalOn(d, segSize, nil)
 	if err != nil {
-		return nil, false
+		return nil, false, nil
 	}
 	defer func() {
 		if w != nil {
@@ -84,9 +111,15 @@ func fmRun(segSize int, ops []string, faultOp int, faultKind, faultName string, 
 			if err != nil {
 				w = nil
 				res = append(res, fmOpResult{line: "frestart", impl: "err"})
-				return res, fired
+				done = append(done, "restart")
+				if len(acked) > 0 {
+					report("C01", "Open fails on a clean restart: acknowledged entries are unreachable", err.Error())
+				}
+				return res, fired, viols
 			}
 			res = append(res, fmOpResult{line: "frestart", impl: logSummary(w)})
+			done = append(done, "restart")
+			verify(w, "after a clean restart")
 			continue
 		}
 		if j == faultOp {
@@ -140,14 +173,38 @@ func fmRun(segSize int, ops []string, faultOp int, faultKind, faultName string, 
 			r = "err"
 		}
 		res = append(res, fmOpResult{line, r + " " + logSummary(w), planOfEvents(d.Events[start:])})
+		done = append(done, clipS(op)+" -> "+r)
+		switch ws[0] {
+		case "store":
+			if e == nil {
+				for _, t := range ws[1:] {
+					acked[atoiU(strings.SplitN(t, ":", 2)[0])] = tokKey(t)
+				}
+			}
+		case "del":
+			// whether it returned nil or not, the entries of the range are no longer guaranteed (a failed call may take effect)
+			mn, mx := atoiU(ws[1]), atoiU(ws[2])
+			for idx := range acked {
+				if idx >= mn && idx <= mx {
+					delete(acked, idx)
+				}
+			}
+		case "setu":
+			if e == nil {
+				stableOK = map[uint64]bool{atoiU(ws[2]): true}
+			} else {
+				stableOK[atoiU(ws[2])] = true
+			}
+		}
+		verify(w, "in the running process after `"+clipS(op)+"`")
 	}
-	return res, fired
+	return res, fired, viols
 }
 
 func faultKindOf(evKind string) string { return evKind } // simfs uses the same names for events and fault-eligible calls
 
 // faultModelTie builds the driver cases for one workload.
-func faultModelTie(segSize int, ops []string, r *Rng, out *[]*cmCase, stats map[string]int) {
+func faultModelTie(segSize int, ops []string, r *Rng, out *[]*cmCase, stats map[string]int, viols *[]Violation) {
 	// recorded run without faults: the events of every call
 	d := simfs.New()
 	d.Record = true
@@ -187,7 +244,8 @@ func faultModelTie(segSize int, ops []string, r *Rng, out *[]*cmCase, stats map[
 		*out = append(*out, cc)
 	}
 	// no fault at all
-	if res, _ := fmRun(segSize, append(append([]string(nil), ops...), "restart"), -1, "", "", 0, 0, false); res != nil {
+	if res, _, vs := fmRun(segSize, append(append([]string(nil), ops...), "restart"), -1, "", "", 0, 0, false); res != nil {
+		*viols = append(*viols, vs...)
 		emit(res, []string{fmt.Sprintf("segment size %d", segSize), "run: " + strings.Join(ops, " ; "), "no fault"})
 		stats["fault-model:runs"]++
 	}
@@ -230,7 +288,8 @@ func faultModelTie(segSize int, ops []string, r *Rng, out *[]*cmCase, stats map[
 						continue
 					}
 					full := append(append([]string(nil), ops...), "restart")
-					res, fired := fmRun(segSize, full, opIdx[si-1], faultKindOf(ev.Kind), ev.Name, nth, v.landed, persistent)
+					res, fired, vs := fmRun(segSize, full, opIdx[si-1], faultKindOf(ev.Kind), ev.Name, nth, v.landed, persistent)
+					*viols = append(*viols, vs...)
 					if res == nil || !fired {
 						stats["fault-model:not-fired"]++
 						continue
@@ -279,7 +338,11 @@ func runFaultModelCases(cases []*cmCase, rep *Report) {
 			rep.Dist["fault_model_divergences"]++
 			if nd < 5 {
 				nd++
-				rep.Divergences = append(rep.Divergences, Divergence{Props: []string{"C10"}, Case: fmt.Sprintf("fault-model-%d", ci),
+				props := []string{"C10", "C01"}
+				if strings.Contains(l, " setu ") {
+					props = []string{"C10", "C08"}
+				}
+				rep.Divergences = append(rep.Divergences, Divergence{Props: props, Case: fmt.Sprintf("fault-model-%d", ci),
 					Ops: append(append([]string(nil), c.replays[i]...), "model lines: "+strings.Join(clip(c.lines[:i+1], 14), " | ")), At: i, Op: l, Impl: c.expect[i], Model: m})
 			}
 			break
@@ -297,6 +360,7 @@ func suiteFaultModel(seed uint64, tier string) *Report {
 	}
 	simfs.OpenWriterDirSyncs = probeOpenWriterDirSyncs()
 	var cases []*cmCase
+	var viols []Violation
 	for k := 0; k < nw; k++ {
 		cr := r.Fork()
 		segSize, ops := genCrashWorkload(cr)
@@ -307,7 +371,7 @@ func suiteFaultModel(seed uint64, tier string) *Report {
 			at := 1 + cr.Intn(len(ops)-1)
 			ops = append(append(append([]string(nil), ops[:at]...), "restart"), ops[at:]...)
 		}
-		faultModelTie(segSize, ops, cr, &cases, rep.Dist)
+		faultModelTie(segSize, ops, cr, &cases, rep.Dist, &viols)
 		rep.Cases++
 		if len(rep.Samples) < 3 {
 			rep.Samples = append(rep.Samples, map[string]any{"segment_size": segSize, "ops": clip(ops, 10)})
@@ -316,6 +380,14 @@ func suiteFaultModel(seed uint64, tier string) *Report {
 	rep.Ops = len(cases)
 	rep.NonTrivial = rep.Dist["fault-model:runs"]
 	runFaultModelCases(cases, rep)
+	// per property at most a handful of reports
+	cnt := map[string]int{}
+	for _, v := range viols {
+		if cnt[v.Property] < 5 {
+			cnt[v.Property]++
+			rep.Violations = append(rep.Violations, v)
+		}
+	}
 	return rep
 }
 
